@@ -252,3 +252,16 @@ Definition sample_assignments : list N :=
   [0; N.ones 32] ++ map (fun v => 2 ^ v) vars32 ++ map (fun v => N.lxor (N.ones 32) (2 ^ v)) vars32.
 Definition spec_sop_value (cs : list cube) (m : N) : bool := existsb (fun c => spec_cube_value c m) cs.
 Definition spec_esop_value (cs : list cube) (m : N) : bool := fold_left (fun r c => xorb r (spec_cube_value c m)) cs false.
+
+(* ---- C04 / C05 beyond the sizes where the whole group can be enumerated: the representative must not be above the
+   image of the input by any element of the group that the caller lists (elements outside the group are skipped, so
+   the check is sound whatever the list) *)
+Definition in_groupb (g n : nat) (perm : list N) (mask : N) : bool :=
+  match g with
+  | 0%nat => is_permb n perm && (mask =? 0)
+  | 1%nat => list_eqb N.eqb perm (identity n) && (mask <? 2 ^ (N.of_nat n + 1))
+  | _ => is_permb n perm && (mask <? 2 ^ (N.of_nat n + 1))
+  end.
+Definition chk_below (g n : nat) (f c : list N) (elems : list (list N * N)) : bool :=
+  let cn := bigN c in
+  forallb (fun pm => implb (in_groupb g n (fst pm) (snd pm)) (cn <=? act_num n (fst pm) (snd pm) f)) elems.
